@@ -871,7 +871,8 @@ func (k *checker) check(sp spec, tag string) {
 	}
 	if sp.CLI {
 		var fields []int64
-		if len(sp.Closes) == 0 {
+		if len(sp.Closes) == 0 && len(sp.Split) == 0 {
+			// (with several files the command merges them in its own arrival order: the estimate may differ)
 			fields = chain
 		}
 		k.cliReports(lats, sorted, repl, hasZero, fields)
